@@ -2,9 +2,17 @@
   pkg/versions/1_0/operationparser/*.go and pkg/versions/1_0/model/*.go.
 
   Requests are decoded from `Json` the way `encoding/json` decodes them into the request structs
-  (exact-case member names, unknown members dropped, `null` leaves the zero value, a value of
-  the wrong JSON type is a decode error). Everything outside the decoded fields is forgotten,
-  which matters: hashes are computed over the *re-marshalled* struct.
+  (unknown members dropped, `null` leaves the zero value, a value of the wrong JSON type is a
+  decode error). Everything outside the decoded fields is forgotten, which matters: hashes are
+  computed over the *re-marshalled* struct.
+
+  Member names: `encoding/json` matches a member to a struct field by exact name or, failing that,
+  by the name's case fold. The decoders below look members up by exact name; the folding is the
+  separate function `GoJson.view`, which spells every member that folds to a field of the struct at
+  that position the way the field is spelled. Request values enter the model through it (`requestShape`
+  at the top — applied where the bytes are read — and `signedShape` inside `payloadJson`). Two
+  members of one object that fold to the same field are outside the model (Go merges them field by
+  field).
 -/
 import Sidetree.Hashing
 import Sidetree.Jwk
@@ -56,6 +64,63 @@ def topObject (j : Json) : Option Json :=
   | .obj _ => some j
   | .null => some (.obj [])
   | _ => none
+
+/-! #### member names up to case (`encoding/json`'s `foldName`) -/
+
+/-- `foldRune`: the smallest rune of the simple-fold orbit. For the orbits that contain an ASCII
+    letter that is the upper-case letter (`ſ` U+017F folds with `S`, the Kelvin sign U+212A with
+    `K`); a rune outside those orbits never folds to ASCII, and all field names are ASCII, so it
+    can stay as it is. -/
+def foldChar (c : Char) : Char :=
+  if 97 ≤ c.toNat ∧ c.toNat ≤ 122 then Char.ofNat (c.toNat - 32)
+  else if c.toNat = 0x17F then 'S'
+  else if c.toNat = 0x212A then 'K'
+  else c
+
+def foldName (s : String) : List Char := s.toList.map foldChar
+
+def sameFold (a b : String) : Bool := foldName a == foldName b
+
+/-- which members of a value are struct fields, and what their values are decoded into -/
+inductive Shape where
+  | leaf
+  | struct (fields : List (String × Shape))
+
+/-- the field a member named `k` is decoded into -/
+def fieldFor (fs : List (String × Shape)) (k : String) : Option (String × Shape) :=
+  fs.find? fun f => sameFold k f.1
+
+mutual
+/-- every member that folds to a field of the struct at its position, spelled as the field -/
+def view : Shape → Json → Json
+  | .struct fs, .obj kvs => .obj (viewMembers fs kvs)
+  | _, j => j
+def viewMembers (fs : List (String × Shape)) : List (String × Json) → List (String × Json)
+  | [] => []
+  | (k, v) :: rest =>
+    (match fieldFor fs k with
+     | some (f, sh) => (f, view sh v)
+     | none => (k, v)) :: viewMembers fs rest
+end
+
+mutual
+/-- no object at a struct position has two members decoded into the same field -/
+def dupFree : Shape → Json → Bool
+  | .struct fs, .obj kvs => dupFreeMembers fs kvs && fieldsOnce fs kvs
+  | _, _ => true
+def dupFreeMembers (fs : List (String × Shape)) : List (String × Json) → Bool
+  | [] => true
+  | (k, v) :: rest =>
+    (match fieldFor fs k with
+     | some (_, sh) => dupFree sh v
+     | none => true) && dupFreeMembers fs rest
+def fieldsOnce (fs : List (String × Shape)) : List (String × Json) → Bool
+  | [] => true
+  | (k, _) :: rest =>
+    (match fieldFor fs k with
+     | some (f, _) => !(rest.any fun p => (fieldFor fs p.1).map (·.1) == some f)
+     | none => true) && fieldsOnce fs rest
+end
 
 end GoJson
 
@@ -312,8 +377,28 @@ def parseSignedData (cfg : Protocol) (compact : String) : Option Jws.Parsed :=
     | none => none
     | some p => if headersOK cfg p.headers then some p else none
 
+/-- `jws.JWK` -/
+def jwkFields : List (String × GoJson.Shape) :=
+  [("kty", .leaf), ("crv", .leaf), ("x", .leaf), ("y", .leaf), ("n", .leaf), ("e", .leaf), ("nonce", .leaf)]
+
+def jwkShape : GoJson.Shape := .struct jwkFields
+
+/-- the three signed data models (update / recover / deactivate); a decoder reads only its own fields -/
+def signedFields : List (String × GoJson.Shape) :=
+  [("updateKey", jwkShape), ("recoveryKey", jwkShape), ("deltaHash", .leaf), ("recoveryCommitment", .leaf),
+   ("anchorOrigin", .leaf), ("didSuffix", .leaf), ("revealValue", .leaf), ("anchorFrom", .leaf), ("anchorUntil", .leaf)]
+
+def signedShape : GoJson.Shape := .struct signedFields
+
+/-- the four request models, `DeltaModel` and `SuffixDataModel` -/
+def requestShape : GoJson.Shape :=
+  .struct [("type", .leaf), ("didSuffix", .leaf), ("revealValue", .leaf), ("signedData", .leaf),
+           ("suffixData", .struct [("deltaHash", .leaf), ("recoveryCommitment", .leaf), ("anchorOrigin", .leaf), ("type", .leaf)]),
+           ("delta", .struct [("updateCommitment", .leaf), ("patches", .leaf)])]
+
+/-- the signed payload as the signed data models see it -/
 def payloadJson (p : Jws.Parsed) : Option Json :=
-  ((stringOfBytes? p.payload).bind fun t => Parse.parse t.toList).bind GoJson.topObject
+  (((stringOfBytes? p.payload).bind fun t => Parse.parse t.toList).bind GoJson.topObject).map (GoJson.view signedShape)
 
 def decodeKey (j : Json) (k : String) : Option (Option Jwk) := GoJson.ptr j k Jwk.ofJson?
 
